@@ -82,6 +82,10 @@ def evaluate(prop, n):
                                 'summary': [l for l in outc.splitlines() if l.startswith(c + ':')][-1:]})
             if rcc == 1:
                 meta['detected_by'].append(c)
+                if os.environ.get('SEED_ALL') != '1':
+                    # the other related checks are only run while no check has reported the change (SEED_ALL=1 runs them all)
+                    meta['not_run_after_detection'] = [x for x in checks[checks.index(c) + 1:]]
+                    break
         return meta
     finally:
         sh(f'git -C /repo worktree remove --force {scratch}')
@@ -100,7 +104,7 @@ def main():
                 continue
             dst = os.path.join(OUT, f'{prop}-{n}')
             os.makedirs(dst, exist_ok=True)
-            for f in ('patch.diff', 'demo.py', 'notes.md'):
+            for f in ('patch.diff', 'demo.py', 'notes.md', 'patch.orig.diff'):
                 if os.path.exists(os.path.join(d, n, f)):
                     shutil.copy(os.path.join(d, n, f), os.path.join(dst, f))
             json.dump(meta, open(os.path.join(dst, 'meta.json'), 'w'), indent=1)
